@@ -906,6 +906,10 @@ func SinkLineShapeDocs() [][]byte {
 // parser.Context handed in through parser.WithContext / Parse(…, WithContext) and hands every result to judge. Only
 // oracles that hold for each result on its own may be used here: link reference definitions and heading ids
 // legitimately survive in a reused context.
+// sharedCtxGuard, when set (by C01), is told which document a worker is about to convert, so that a call that never
+// returns is attributed to its input.
+var sharedCtxGuard func(s *core.Sub, key any, cfg string, d []byte) (done func())
+
 func sharedContextSub(r *core.Run, name, what string, cfg core.Cfg, docs [][]byte,
 	judge func(s *core.Sub, cfg core.Cfg, d []byte, out []byte, tree ast.Node, hist []string)) {
 	s := r.Sub(name, fmt.Sprintf("%d runs of three documents (d_i, d_i+1, d_i of the structured corpus) converted and parsed one after the other on one instance with one parser.Context passed through parser.WithContext, under %s: %s", len(docs), cfg, what))
@@ -925,6 +929,9 @@ func sharedContextSub(r *core.Run, name, what string, cfg core.Cfg, docs [][]byt
 				var tree ast.Node
 				func() {
 					defer func() { pan = recover() }()
+					if sharedCtxGuard != nil {
+						defer sharedCtxGuard(s, &buf, cfg.String()+" (one parser.Context for consecutive corpus documents)", d)()
+					}
 					err = md.Convert(d, &buf, parser.WithContext(pc))
 					tree = md.Parser().Parse(text.NewReader(d), parser.WithContext(pc))
 				}()
